@@ -277,9 +277,15 @@ func (p *OneofFields) lazyInit() *OneofFields {
 			p.byNum = make(map[protoreflect.FieldNumber]protoreflect.FieldDescriptor, len(p.List))
 			for _, f := range p.List {
 				// Field names and numbers are guaranteed to be unique.
+				// JSON and text names are not: the first field wins,
+				// as in the message's own field list.
 				p.byName[f.Name()] = f
-				p.byJSON[f.JSONName()] = f
-				p.byText[f.TextName()] = f
+				if _, ok := p.byJSON[f.JSONName()]; !ok {
+					p.byJSON[f.JSONName()] = f
+				}
+				if _, ok := p.byText[f.TextName()]; !ok {
+					p.byText[f.TextName()] = f
+				}
 				p.byNum[f.Number()] = f
 			}
 		}
